@@ -373,7 +373,9 @@ public:
                 = down_cast<const Pow &>(*(*subs_dict_.begin()).first);
             if (eq(*subs_first.get_base(), *base_new)) {
                 auto newexpo = div(exp_new, subs_first.get_exp());
-                if (is_a_Number(*newexpo) or is_a<Constant>(*newexpo)) {
+                // (b**k)**n == b**(k*n) for integer n only; e.g. x**3 is not
+                // (x**2)**(3/2) for negative x
+                if (is_a<Integer>(*newexpo)) {
                     result_ = pow((*subs_dict_.begin()).second, newexpo);
                     return;
                 }
